@@ -36,7 +36,7 @@ def check(ctx):
     g = ctx.gen
     ctx.lean_gate()
     reqs, metas = [], []
-    n_feat = 250 if ctx.tier == "quick" else 4000
+    n_feat = 1500 if ctx.tier == "quick" else 6000
     # ------------------------------------------------------------------ features
     for _ in range(n_feat):
         mk = gen_market(g)
@@ -143,7 +143,7 @@ def check(ctx):
                                  key=f"feature:{fname}:step-vs-all", detail={"at": a_, "col": b_})
                         break
     # ------------------------------------------------------------------ hedges in both modes
-    n_h = 150 if ctx.tier == "quick" else 2500
+    n_h = 800 if ctx.tier == "quick" else 3500
     for _ in range(n_h):
         mk = gen_market(g)
         H = g.choice([1, 1, 2, 3])
